@@ -132,6 +132,26 @@ def _simple(e):
         isinstance(e, ast.Starred) and _simple(e.value))
 
 
+def _as_expression(body):
+    """a helper body that is only a chain of `if t: return a` ... `return z` (else arms allowed) as one expression
+    `a if t else (... z)`; None if it is anything else"""
+    if not body:
+        return None
+    st = body[0]
+    if isinstance(st, ast.Return) and st.value is not None and len(body) == 1:
+        return st.value
+    if isinstance(st, ast.If) and len(st.body) == 1 and isinstance(st.body[0], ast.Return) and st.body[0].value is not None:
+        rest = st.orelse if st.orelse else body[1:]
+        if st.orelse and body[1:]:
+            return None
+        other = _as_expression(rest)
+        if other is None:
+            return None
+        e = ast.IfExp(test=st.test, body=st.body[0].value, orelse=other)
+        return ast.copy_location(e, st)
+    return None
+
+
 class Inliner:
     def __init__(self, tree):
         self.tree = tree
@@ -376,12 +396,13 @@ class Inliner:
                 fn, kind, cls, body = h
                 if fn.name in inl.anywhere_returns:
                     return c
-                if len(body) == 1 and isinstance(body[0], ast.Return) and body[0].value is not None:
-                    locals_ = {x.id for x in ast.walk(body[0]) if isinstance(x, ast.Name) and isinstance(x.ctx, ast.Store)}
+                expr = _as_expression(_body(fn))
+                if expr is not None:
+                    locals_ = {x.id for x in ast.walk(expr) if isinstance(x, ast.Name) and isinstance(x.ctx, ast.Store)}
                     if locals_ & set(mapping):
                         return c
                     inl.count += 1
-                    return ast.copy_location(_Subst(mapping, {}).visit(A.clone(body[0].value)), c)
+                    return ast.copy_location(_Subst(mapping, {}).visit(A.clone(expr)), c)
                 return c
 
             def visit_FunctionDef(self, n):
@@ -483,6 +504,10 @@ def inline_aliases(fn):
                     if isinstance(v.value, ast.Attribute) or v.attr in ('put', 'get', 'get_nowait', 'put_nowait', 'qsize', 'empty',
                                                                          'append', 'pop', 'keys', 'shuffle', 'choice'):
                         defs[name] = v
+            # `b = a`: a second name for a local that is itself bound exactly once (left over from helper inlining)
+            if stores.get(name) == 1 and name not in params and isinstance(v, ast.Name) and v.id not in params \
+                    and stores.get(v.id) == 1 and v.id != name:
+                defs[name] = v
     if not defs:
         return 0
     sub = _AliasSubst(defs)
@@ -525,6 +550,74 @@ def _append_body(body, name, gens=None):
     return None
 
 
+def _dict_store_body(body, name):
+    """`name[k] = v` below optional else-less filters -> (k, v, ifs) or None"""
+    ifs = []
+    while len(body) == 1 and isinstance(body[0], ast.If) and not body[0].orelse:
+        ifs.append(body[0].test)
+        body = body[0].body
+    if len(body) == 1 and isinstance(body[0], ast.Assign) and len(body[0].targets) == 1 \
+            and isinstance(body[0].targets[0], ast.Subscript) and A.is_name(body[0].targets[0].value, name) \
+            and not any(A.is_name(x, name) for x in ast.walk(body[0].value)) \
+            and not any(A.is_name(x, name) for x in ast.walk(body[0].targets[0].slice)) \
+            and not any(A.is_name(x, name) for c in ifs for x in ast.walk(c)):
+        return body[0].targets[0].slice, body[0].value, ifs
+    return None
+
+
+def sink_call_into_branches(fn):
+    """`if a: f = X  elif b: f = Y  else: raise ...` ; `return f(args)`  ->  the call is made in every branch
+    (`return X(args)` ...). f is bound only in that chain and read only by the following statement."""
+    done = 0
+    for blk in _block_lists(fn):
+        i = 0
+        while i < len(blk) - 1:
+            st, nxt = blk[i], blk[i + 1]
+            if isinstance(st, ast.If) and isinstance(nxt, (ast.Return, ast.Assign, ast.Expr)):
+                arms = []
+                cur = st
+                ok = True
+                while True:
+                    arms.append((cur, 'body'))
+                    if len(cur.orelse) == 1 and isinstance(cur.orelse[0], ast.If):
+                        cur = cur.orelse[0]
+                    else:
+                        arms.append((cur, 'orelse'))
+                        break
+                names = set()
+                for node, field in arms:
+                    b_ = getattr(node, field)
+                    if b_ and isinstance(b_[-1], ast.Raise):
+                        continue
+                    if len(b_) == 1 and isinstance(b_[0], ast.Assign) and len(b_[0].targets) == 1 \
+                            and isinstance(b_[0].targets[0], ast.Name) and isinstance(b_[0].value, (ast.Name, ast.Attribute)):
+                        names.add(b_[0].targets[0].id)
+                    else:
+                        ok = False
+                if ok and len(names) == 1:
+                    f = names.pop()
+                    loads = [x for x in ast.walk(fn) if isinstance(x, ast.Name) and x.id == f and isinstance(x.ctx, ast.Load)]
+                    stores = [x for x in ast.walk(fn) if isinstance(x, ast.Name) and x.id == f and isinstance(x.ctx, ast.Store)]
+                    n_assign = sum(1 for node, field in arms if getattr(node, field) and not isinstance(getattr(node, field)[-1], ast.Raise))
+                    callsite = [x for x in ast.walk(nxt) if isinstance(x, ast.Call) and A.is_name(x.func, f)]
+                    if len(loads) == 1 and len(callsite) == 1 and len(stores) == n_assign:
+                        for node, field in arms:
+                            b_ = getattr(node, field)
+                            if b_ and isinstance(b_[-1], ast.Raise):
+                                continue
+                            repl = _AliasSubst({f: b_[0].value}).visit(A.clone(nxt))
+                            ast.copy_location(repl, b_[0])
+                            for x in ast.walk(repl):
+                                if hasattr(x, 'lineno'):
+                                    x.lineno = b_[0].lineno
+                            setattr(node, field, [repl])
+                        del blk[i + 1]
+                        done += 1
+                        continue
+            i += 1
+    return done
+
+
 def loops_to_comprehensions(block):
     out = []
     i = 0
@@ -540,6 +633,22 @@ def loops_to_comprehensions(block):
             elt_, ifs_, more_ = _append_body(nxt.body, st.targets[0].id)
             comp = ast.ListComp(elt=elt_,
                                 generators=[ast.comprehension(target=nxt.target, iter=nxt.iter, ifs=ifs_, is_async=0)] + more_)
+            new = ast.Assign(targets=st.targets, value=comp)
+            ast.copy_location(new, nxt)
+            ast.copy_location(comp, nxt)
+            ast.fix_missing_locations(new)
+            out.append(new)
+            i += 2
+            n += 1
+            continue
+        if isinstance(st, ast.Assign) and len(st.targets) == 1 and isinstance(st.targets[0], ast.Name) and (
+                (isinstance(st.value, ast.Dict) and not st.value.keys) or
+                (isinstance(st.value, ast.Call) and A.dotted(st.value.func) == 'dict' and not st.value.args and not st.value.keywords)) \
+                and isinstance(nxt, ast.For) and not nxt.orelse and _dict_store_body(nxt.body, st.targets[0].id) is not None \
+                and not any(A.is_name(x, st.targets[0].id) for x in ast.walk(nxt.iter)):
+            k_, v_, ifs_ = _dict_store_body(nxt.body, st.targets[0].id)
+            comp = ast.DictComp(key=k_, value=v_,
+                                generators=[ast.comprehension(target=nxt.target, iter=nxt.iter, ifs=ifs_, is_async=0)])
             new = ast.Assign(targets=st.targets, value=comp)
             ast.copy_location(new, nxt)
             ast.copy_location(comp, nxt)
@@ -878,7 +987,7 @@ def flatten_else_after_exit(tree):
         if not stmts:
             return False
         last = stmts[-1]
-        if isinstance(last, (ast.Return, ast.Raise, ast.Continue, ast.Break)):
+        if isinstance(last, (ast.Return, ast.Raise, ast.Break)):
             return True
         if isinstance(last, ast.If) and last.orelse:
             return exits(last.body) and exits(last.orelse)
@@ -1146,6 +1255,67 @@ def merge_nested_ifs(tree):
     return done
 
 
+def ifexp_assign_to_if(tree):
+    """canonical form: `t = a if c else b` -> `if c: t = a  else: t = b` (plain name / attribute target)"""
+    done = 0
+
+    def fix(blk):
+        nonlocal done
+        out = []
+        for st in blk:
+            for field in ('body', 'orelse', 'finalbody'):
+                b_ = getattr(st, field, None)
+                if isinstance(b_, list) and b_ and isinstance(b_[0], ast.stmt) and not isinstance(st, ast.ClassDef):
+                    setattr(st, field, fix(b_))
+            if isinstance(st, ast.Try):
+                for h in st.handlers:
+                    h.body = fix(h.body)
+            if isinstance(st, ast.Assign) and len(st.targets) == 1 and isinstance(st.targets[0], (ast.Name, ast.Attribute)) \
+                    and isinstance(st.value, ast.IfExp):
+                a_ = ast.Assign(targets=[A.clone(st.targets[0])], value=st.value.body)
+                b_ = ast.Assign(targets=[A.clone(st.targets[0])], value=st.value.orelse)
+                new = ast.If(test=st.value.test, body=[a_], orelse=[b_])
+                for x in (new, a_, b_):
+                    ast.copy_location(x, st)
+                ast.fix_missing_locations(new)
+                out.append(new)
+                done += 1
+            else:
+                out.append(st)
+        return out
+    for fn in [n for n in ast.walk(tree) if isinstance(n, A.FUNC_TYPES)]:
+        fn.body = fix(fn.body)
+    return done
+
+
+def continue_to_else(tree):
+    """inside a loop body: `if c: A ; continue` followed by REST  ->  `if c: A  else: REST`; a `continue` that ends an
+    arm of the last statement of a loop body is dropped"""
+    done = 0
+
+    def fix_loop_body(body):
+        nonlocal done
+        for i, st in enumerate(body):
+            if isinstance(st, ast.If) and not st.orelse and st.body and isinstance(st.body[-1], ast.Continue) and body[i + 1:] \
+                    and not any(isinstance(x, ast.Continue) for s_ in st.body[:-1] for x in A.walk_stmts([s_])):
+                st.body = st.body[:-1] or [ast.copy_location(ast.Pass(), st)]
+                st.orelse = fix_loop_body(body[i + 1:])
+                done += 1
+                return body[:i + 1]
+        if body and isinstance(body[-1], ast.If):
+            last = body[-1]
+            for field in ('body', 'orelse'):
+                b_ = getattr(last, field)
+                if len(b_) > 1 and isinstance(b_[-1], ast.Continue):
+                    setattr(last, field, b_[:-1])
+                    done += 1
+        return body
+    for n in ast.walk(tree):
+        if isinstance(n, (ast.For, ast.While)):
+            n.body = fix_loop_body(n.body)
+    return done
+
+
 def normalise(tree):
     """in-place normalisation of a module tree; returns statistics"""
     stats = {'helpers_inlined': 0, 'aliases_inlined': 0, 'loops_to_comprehensions': 0}
@@ -1157,8 +1327,11 @@ def normalise(tree):
     stats['constant_ifs_folded'] = fold_constant_ifs(tree)
     stats['tidied'] = tidy_after_inlining(tree)
     stats['nested_ifs_merged'] = merge_nested_ifs(tree)
+    stats['ifexp_assign_to_if'] = ifexp_assign_to_if(tree)
+    stats['continue_to_else'] = continue_to_else(tree)
     stats['nested_closures_inlined'] = 0
     for fn in [n for n in ast.walk(tree) if isinstance(n, A.FUNC_TYPES)]:
+        stats['nested_closures_inlined'] += sink_call_into_branches(fn)
         stats['nested_closures_inlined'] += inline_partials(fn)
         stats['nested_closures_inlined'] += expand_nested_def_aliases(fn)
         stats['nested_closures_inlined'] += inline_nested_closures(fn)
